@@ -396,6 +396,13 @@ func (h *hist) exec(sp StepSpec, cs func() Case) {
 		}
 		row = append(row, b)
 		h.built[step] = row
+		dup := false
+		for _, x := range hashes {
+			dup = dup || x == b.ver.PayloadHash()
+		}
+		if dup { // a snapshot cannot name a transaction twice (the encoder refuses it)
+			continue
+		}
 		hashes = append(hashes, b.ver.PayloadHash())
 		members = append(members, b.ver)
 	}
